@@ -7,9 +7,14 @@
 (* (decode_response.go:181 runs the decrypted octets through the same      *)
 (* bounded inflate with the configured limit).                             *)
 (* limit is the configured MaximumDecompressedBodySize: "0" (unset, 5 MiB),*)
-(* "1", "2k", "64k".  size is the decompressed size of the presented       *)
-(* document relative to the effective limit: natural (a few KiB, no        *)
-(* padding), lim-1, lim, lim+1, x100, x1000.                               *)
+(* "1", "2k", "64k", "maxint" (the largest int64).  size is the            *)
+(* decompressed size of the presented document relative to the effective   *)
+(* limit: natural (a few KiB, no padding), lim-1, lim, lim+1, x100, x1000, *)
+(* lim_min (a bare root element padded inside to exactly the limit).       *)
+(* pres is how it is presented: raw, DEFLATE at levels 1 / 6 / 9, stored   *)
+(* blocks only, Huffman only, or ("lead") one valid multi-block stream per *)
+(* achievable first octet.  Every document of the family carries several   *)
+(* kilobytes of three-octet characters.                                    *)
 (***************************************************************************)
 EXTENDS Naturals, Sequences, FiniteSets, TLC
 
